@@ -526,7 +526,7 @@ shuffle_fns!(Rgba, rgba_by_mask, rgba_diagrams);
 
 /// A native `ColorComponent` type with literal expectations written from the trait's doc
 /// ("`T::MAX` for integers and `1` for real number types").
-trait CC: ColorComponent + Copy + PartialEq + Debug + std::ops::Sub<Output = Self> + 'static {
+trait CC: ColorComponent + Copy + PartialEq + PartialOrd + Default + Debug + num_traits::Zero + num_traits::One + std::ops::Sub<Output = Self> + 'static {
     const NAME: &'static str;
     fn doc_full() -> Self;
     fn doc_zero() -> Self;
